@@ -24,6 +24,7 @@ var c11Progs = []c11Prog{
 	{"misc", "\tINT {0}\n\tIN AL,{1}\n\tSHL AX,{2}\n\tPUSH {3}\n", [][4]int64{{0x10, 0x60, 1, 127}, {0x13, 0x64, 4, 128}}},
 	{"reuse_mul", "\tMOV AX,{0}*512\n\tMOV CX,{0}\n\tMOV AL,[BX+{0}]\n\tDB {0},{1}/9,{1}%5,{1}\n\tMOV DX,{2}*2+{2}\n\tDW {2},{3}/2,{3}\n", [][4]int64{{18, 18, 3, 0x1234}, {1, 255, 127, 0xffff}}},
 	{"high_values", "\tADD EAX,{0}\n\tAND EBX,{1}\n\tMOV ECX,[EBX+{2}]\n\tDD {3}/0x1000\n\tCMP EDX,{0}\n", [][4]int64{{0xffffff80, 0x80000000, 0xfffffffc, 0xe0000000}, {0xffffffff, 0xffff0000, 0x80000000, 0xfffff000}}},
+	{"reuse_add", "\tMOV AX,{0}+1\n\tMOV BX,{0}\n\tDW {0}-1,{0}\n\tMOV CX,[BX+{1}+2]\n\tMOV DX,[SI+{1}]\n\tDB {2}+{2},{2}\n\tADD CX,{3}-1\n\tADD DX,{3}\n", [][4]int64{{16, 4, 3, 128}, {0x1ff, 126, 127, 129}}},
 	{"far_out", "\tJMP DWORD {0}*8:{1}\n\tOUT {2},AL\n\tMOV EDX,{3}\n", [][4]int64{{2, 0x1b, 0x21, 0x000a0000}, {1, 0x280000, 0xa1, 1}}},
 }
 
@@ -60,7 +61,8 @@ func c11Scenario(tier string) *core.Scenario {
 			subset := 1 + c.Pick("subset", (1<<uint(nsites))-1)
 			depth := 1 + c.Pick("depth", depths)
 			body := c.Pick("body", 3)
-			early := c.Pick("placement", 2) == 0
+			placement := c.Pick("placement", 3) // 0 all first, 1 each just before its use, 2 all first but in REVERSE dependency order
+			early := placement != 1
 			var inl, abs [4]string
 			var defs [4]string
 			for i := 0; i < nsites; i++ {
@@ -70,20 +72,25 @@ func c11Scenario(tier string) *core.Scenario {
 					continue
 				}
 				// chain: N_i_1 EQU body ; N_i_2 EQU N_i_1 ; ... ; use N_i_depth
-				var d strings.Builder
+				var lines []string
 				base := fmt.Sprintf("K%d", i)
 				switch body {
 				case 0:
-					d.WriteString(fmt.Sprintf("%s_1 EQU %s\n", base, c11Lit(vs[i])))
+					lines = append(lines, fmt.Sprintf("%s_1 EQU %s\n", base, c11Lit(vs[i])))
 				case 1:
-					d.WriteString(fmt.Sprintf("%s_1 EQU (%s-1+1)\n", base, c11Lit(vs[i]+0)))
+					lines = append(lines, fmt.Sprintf("%s_1 EQU (%s-1+1)\n", base, c11Lit(vs[i]+0)))
 				case 2:
-					d.WriteString(fmt.Sprintf("%s_0 EQU %s+1\n%s_1 EQU %s_0-1\n", base, c11Lit(vs[i]), base, base))
+					lines = append(lines, fmt.Sprintf("%s_0 EQU %s+1\n", base, c11Lit(vs[i])), fmt.Sprintf("%s_1 EQU %s_0-1\n", base, base))
 				}
 				for k := 2; k <= depth; k++ {
-					d.WriteString(fmt.Sprintf("%s_%d EQU %s_%d\n", base, k, base, k-1))
+					lines = append(lines, fmt.Sprintf("%s_%d EQU %s_%d\n", base, k, base, k-1))
 				}
-				defs[i] = d.String()
+				if placement == 2 { // a name may be used in an EQU body before the line that defines it
+					for a, b := 0, len(lines)-1; a < b; a, b = a+1, b-1 {
+						lines[a], lines[b] = lines[b], lines[a]
+					}
+				}
+				defs[i] = strings.Join(lines, "")
 				abs[i] = fmt.Sprintf("%s_%d", base, depth)
 			}
 			inlined := c11Fill(p.tmpl, inl)
@@ -138,10 +145,60 @@ func c11Scenario(tier string) *core.Scenario {
 	}
 }
 
+// c11Special: hand-written (with names, inlined) pairs for situations the site templates cannot
+// express: an EQU that captures `$`, one-letter names that are substrings of register names and
+// keywords, a name that is a substring of a label.
+func c11Special() *core.Scenario {
+	pairs := [][2]string{
+		{"\tDB 1,2,3\nHERE EQU $\n\tDB 4\n\tDW HERE\n\tMOV SI,HERE\n\tRESB HERE+0x20-$\n\tDB 5\n", "\tDB 1,2,3\n\tDB 4\n\tDW {O}+3\n\tMOV SI,{O}+3\n\tRESB {O}+3+0x20-$\n\tDB 5\n"},
+		{"TOP EQU $\n\tMOV AX,TOP\n\tDB 9\nMID EQU $\n\tDW TOP,MID\n\tMOV BX,MID\n", "\tMOV AX,{O}\n\tDB 9\n\tDW {O},{O}+4\n\tMOV BX,{O}+4\n"},
+		{"X EQU 320\nY EQU 200\nD EQU 5\nS EQU 2\n\tMOV AX,X\n\tMOV BX,Y\n\tMOV DWORD [EBX],D\n\tMOV SI,S\n\tADD AX,BX\n\tMOV DX,X+Y\n", "\tMOV AX,320\n\tMOV BX,200\n\tMOV DWORD [EBX],5\n\tMOV SI,2\n\tADD AX,BX\n\tMOV DX,320+200\n"},
+		{"LEN EQU 4\nMSGLEN:\n\tDB LEN\n\tMOV CX,LEN\n\tMOV BX,MSGLEN\n\tJMP MSGLEN\n", "MSGLEN:\n\tDB 4\n\tMOV CX,4\n\tMOV BX,MSGLEN\n\tJMP MSGLEN\n"},
+		{"A EQU B+1\nB EQU C*2\nC EQU 3\n\tMOV AX,A\n\tDB A,B,C\n\tRESB A\n\tADD CX,A\n", "\tMOV AX,7\n\tDB 7,6,3\n\tRESB 7\n\tADD CX,7\n"},
+		{"E EQU 1\nAX2 EQU 2\n\tMOV AX,E\n\tMOV EAX,AX2\n\tMOV ES,AX\n\tDB E,AX2\n", "\tMOV AX,1\n\tMOV EAX,2\n\tMOV ES,AX\n\tDB 1,2\n"},
+	}
+	return &core.Scenario{
+		Name: "equ_special", Bound: -1,
+		Rule:   "6 hand-written program pairs (with EQU names / inlined) x ORG {none, 0x7c00} x BITS: EQU capturing $, names that are substrings of registers, keywords or labels, names used in EQU bodies before their own definition",
+		Bounds: map[string]any{"pairs": len(pairs)},
+		Build: func(c *core.Chooser) *core.Case {
+			pi := c.Pick("pair", len(pairs))
+			org := c.Pick("org", 2)
+			hdr, o := "", "0"
+			if org == 1 {
+				hdr, o = "\tORG 0x7c00\n", "0x7c00"
+			}
+			a := hdr + pairs[pi][0]
+			b := hdr + strings.ReplaceAll(pairs[pi][1], "{O}", o)
+			return &core.Case{
+				Key:  fmt.Sprintf("special %d org=%s", pi, o),
+				Feat: feat("pair", fmt.Sprint(pi), "org", o),
+				Srcs: []string{a, b},
+				Judge: func(rs []*core.Result) core.Verdict {
+					v := core.Verdict{}
+					if core.ReportsError(rs[1], nil) {
+						v.Outcome = "inlined_diagnosed"
+						v.Fails = []core.Fail{{Facet: "harness", Dev: "inlined_program_rejected", Detail: errSummary(rs[1])}}
+						return v
+					}
+					v.Outcome = "assembled"
+					v.Nontrivial = true
+					if core.ReportsError(rs[0], nil) {
+						v.Fails = []core.Fail{{Facet: "equ", Dev: "diagnosed_only_with_names", Detail: errSummary(rs[0])}}
+					} else if !bytes.Equal(rs[0].Out, rs[1].Out) {
+						v.Fails = []core.Fail{{Facet: "equ", Dev: "bytes_differ", Detail: fmt.Sprintf("with names %x, inlined %x", rs[0].Out, rs[1].Out)}}
+					}
+					return v
+				},
+			}
+		},
+	}
+}
+
 func init() {
 	register(&Property{
 		ID:        "C11",
-		Scenarios: func(tier string) []*core.Scenario { return []*core.Scenario{c11Scenario(tier)} },
+		Scenarios: func(tier string) []*core.Scenario { return []*core.Scenario{c11Scenario(tier), c11Special()} },
 		Assumptions: []string{
 			"differential oracle: the fully inlined program (literals written in place) is the reference; what it should assemble to is the subject of C01-C06",
 			"cases in which the inlined program itself is diagnosed are not judged",
